@@ -3,6 +3,7 @@ C06 — Reader conformance (assignment of sub-streams to members).
 -/
 import SevenZ.Model.Assign
 import SevenZ.Spec.Format
+import SevenZ.Lemmas.Assign
 namespace SevenZ.C06
 open SevenZ
 
@@ -20,6 +21,78 @@ theorem interleaved_and_empty_folder_example :
       specSlots [false, true, false, true, false] [2, 0, 1] [10, 20, 7] [some 1, none, some 3] ∧
     Impl.assign [false, true, false, true, false] [2, 0, 1] [10, 20, 7] [some 1, none, some 3] =
       some [some (0, 0, 10, some 1), none, some (0, 10, 20, none), none, some (2, 0, 7, some 3)] := by
+  decide +kernel
+
+/-- Reader conformance of the member/sub-stream assignment, for EVERY layout: whenever the
+    format assigns sub-streams to the files of a header (any number of files, any interleaving
+    of empty-stream entries, any number of folders including folders without streams, any
+    sizes and digests, defined or not), py7zr's cursor (`_real_get_contents`) gives every
+    member the same folder, the same offset inside the folder's output, the same size and the
+    same digest. -/
+theorem assign_refines_spec (files : List Spec.SFile) (nums sizes : List Nat) (crcs : List (Option Nat))
+    (ms : List Spec.SMember) (h : Spec.assign files nums sizes crcs = .ok ms) :
+    Impl.assign (files.map (·.emptyStream)) nums sizes crcs = some (ms.map (·.stream)) := by
+  unfold Spec.assign at h
+  unfold Impl.assign
+  exact assign_refine_go nums sizes crcs _ files 0 0 0 nums sizes crcs ms 0 0 0 0 [] [] [] h rfl rfl rfl rfl rfl rfl
+    (Or.inl ⟨rfl, rfl, rfl, rfl, Nat.le_refl _, fun j h1 h2 => by omega⟩)
+
+/-- the format's assignment hands out every sub-stream exactly once, in order: the sizes of
+    the members that have a stream are the SubStreams size list (so the refinement above is
+    about all of the archive's data, not a prefix of it) -/
+theorem spec_assign_uses_all (fuel : Nat) (files : List Spec.SFile) (folder taken off : Nat) (nums sizes : List Nat)
+    (crcs : List (Option Nat)) (ms : List Spec.SMember)
+    (h : Spec.assignGo fuel files folder taken off nums sizes crcs = .ok ms) :
+    (ms.filterMap (·.stream)).map (fun x => x.2.2.1) = sizes := by
+  induction fuel generalizing files folder taken off nums sizes crcs ms with
+  | zero => simp [Spec.assignGo] at h
+  | succ fuel ih =>
+    cases files with
+    | nil =>
+      unfold Spec.assignGo at h
+      split at h
+      · cases h
+      · rename_i hs
+        cases h
+        simp only [ne_eq, Decidable.not_not] at hs
+        simp [hs]
+    | cons f fs =>
+      unfold Spec.assignGo at h
+      by_cases hf : f.emptyStream = true
+      · simp only [hf, if_true] at h
+        cases hr : Spec.assignGo fuel fs folder taken off nums sizes crcs with
+        | error e => rw [hr] at h; cases h
+        | ok r =>
+          rw [hr] at h
+          simp only [Except.map] at h
+          cases h
+          simpa using ih _ _ _ _ _ _ _ _ hr
+      · simp only [hf, Bool.false_eq_true, if_false] at h
+        cases nums with
+        | nil => cases h
+        | cons n ns =>
+          simp only at h
+          by_cases hge : taken ≥ n
+          · simp only [hge, if_true] at h
+            exact ih _ _ _ _ _ _ _ _ h
+          · simp only [hge, if_false] at h
+            cases sizes with
+            | nil => cases h
+            | cons s ss =>
+              cases crcs with
+              | nil => cases h
+              | cons c cs =>
+                simp only at h
+                cases hr : Spec.assignGo fuel fs folder (taken + 1) (off + s) (n :: ns) ss cs with
+                | error e => rw [hr] at h; cases h
+                | ok r =>
+                  rw [hr] at h
+                  simp only [Except.map] at h
+                  cases h
+                  simp only [List.filterMap_cons, List.map_cons, List.cons.injEq, true_and]
+                  exact ih _ _ _ _ _ _ _ _ hr
+
+example : (Spec.assign [{ emptyStream := false }, { emptyStream := true }, { emptyStream := false }] [1, 0, 1] [4, 6] [some 9, none]).toOption.isSome = true := by
   decide +kernel
 
 end SevenZ.C06
